@@ -88,7 +88,10 @@ int main()
     {
       const integer::number n(cvect{0}, int(std::stoll(t[1])), int(std::stoll(t[2])));
       random::seed(unsigned(std::stoul(t[3])));
-      std::cout << wire::hex16(verif::bits(n.init())) << " " << (n.parametric() ? 1 : 0) << "\n";
+      const auto before = verif::ubsan_reports;
+      const double d = n.init();
+      std::cout << wire::hex16(verif::bits(d)) << " " << (n.parametric() ? 1 : 0)
+                << (verif::ubsan_reports != before ? " ub" : "") << "\n";
       continue;
     }
     if (t[0] == "cast" && t.size() == 2)
